@@ -1,7 +1,17 @@
-(* C12 — Merge obeys its algebraic and ordering laws.  Statements only. *)
+(* C12 — Merge obeys its algebraic and ordering laws.  Statements only; proofs in
+   Proofs/Merge{Base,Loop,Walk,Conf,Laws}.v.
+
+   [merge] (Model/Merge.v) is the transliteration of the merging walker, the index loop
+   of visitListItems included (its termination within the model's fuel is part of
+   merge_total).  Hypotheses: [schema_ok s R], [family_refs s R], [R tr] (see C11).
+   Proved: totality, validity of the result, identity laws (itself, nothing on either
+   side).  Not yet proved about the model (decided on the implementation's outcomes by
+   the extracted checkers): non-removal, right-wins, frame, field-set union, idempotence
+   of merging R again, associativity, the ordering laws. *)
 From Coq Require Import List ZArith String Bool.
 From SMD Require Import Model.Value Model.Order Model.PathElem Model.PathSet Model.Schema
-  Model.Merge Spec.Examples.
+  Model.Walk Model.Merge Spec.RefValid Spec.Resolve Spec.Examples Proofs.OrderLaws Proofs.SchemaOk
+  Proofs.MergeWalk Proofs.MergeLaws.
 Import ListNotations.
 Open Scope string_scope.
 
@@ -22,3 +32,48 @@ Theorem C12_nested_duplicates_are_reported :
   = None.
 Proof. vm_compute. reflexivity. Qed.
 Print Assumptions C12_nested_duplicates_are_reported.
+
+(* merging never fails on valid operands (duplicates allowed on the left only) and yields
+   a valid object *)
+Theorem C12_total_and_valid : forall s R tr l r,
+  schema_ok s R -> family_refs s R -> R tr -> wf_value l = true -> wf_value r = true ->
+  conforms s tr true l = true -> conforms s tr false r = true ->
+  exists out, merge s tr l r = Some (Some out) /\ conforms s tr true out = true /\ wf_value out = true.
+Proof.
+  intros s R tr l r H1 H2 H3 H4 H5 H6 H7.
+  destruct (merge_total s R tr l r H1 H2 H3 H4 H5 H6 H7) as [out Hout].
+  exists out. split; [exact Hout|]. exact (merge_conforms s R tr l r out H1 H2 H3 H4 H5 H6 H7 Hout).
+Qed.
+Print Assumptions C12_total_and_valid.
+
+(* merging with itself is the identity *)
+Theorem C12_merge_with_itself : forall s R tr v,
+  schema_ok s R -> family_refs s R -> R tr -> wf_value v = true -> conforms s tr false v = true ->
+  merge s tr v v = Some (Some v).
+Proof. exact merge_self. Qed.
+Print Assumptions C12_merge_with_itself.
+
+(* merging with nothing is the identity: on the left always; on the right for a root
+   that is a granular non-empty container (a leaf root becomes null: C12_identity_root_
+   leaf_refuted above, finding F11) *)
+Theorem C12_merge_with_nothing_left : forall s R tr r,
+  schema_ok s R -> family_refs s R -> R tr -> wf_value r = true -> conforms s tr false r = true ->
+  merge s tr VNull r = Some (Some r).
+Proof. exact merge_null_left. Qed.
+Print Assumptions C12_merge_with_nothing_left.
+
+Theorem C12_merge_with_nothing_right : forall s R tr l,
+  schema_ok s R -> family_refs s R -> R tr -> wf_value l = true -> conforms s tr true l = true ->
+  match kind_of s tr l with
+  | KMap _ _ => True
+  | KList _ _ => forall a, resolve s tr = Some a -> list_only a = true
+  | _ => False
+  end ->
+  merge s tr l VNull = Some (Some l).
+Proof. exact merge_null_right. Qed.
+Print Assumptions C12_merge_with_nothing_right.
+
+(* non-vacuity *)
+Theorem C12_hypotheses_satisfiable : schema_ok ex_schema ex_R /\ family_refs ex_schema ex_R /\ ex_R ex_rt.
+Proof. exact (conj ex_schema_ok (conj ex_family ex_R_rt)). Qed.
+Print Assumptions C12_hypotheses_satisfiable.
